@@ -2,8 +2,8 @@
 From Coq Require Import String.
 From Coq Require Import List NArith ZArith.
 From Coq.Strings Require Import Byte.
-From Model Require Import Bytes Parser Response Conn Proxy.
-From Proofs Require Import ParserFacts ProxyFacts.
+From Model Require Import Bytes Parser Response Conn Proxy Handshake Digest Url.
+From Proofs Require Import ParserFacts ProxyFacts DigestFacts UrlFacts.
 Import ListNotations.
 Open Scope N_scope.
 
@@ -57,3 +57,31 @@ Example C19_pick : forall h s, pick_proxy false (Some h) s = (match h with [] =>
                             /\ pick_proxy true s (Some h) = (match h with [] => None | _ => Some h end)
                             /\ pick_proxy false None s = None /\ pick_proxy true s None = None.
 Proof. intros [|b h] s; repeat split; reflexivity. Qed.
+
+(* ---------- the proxy URL and the credentials, inside the model ---------- *)
+(* for a proxy URL rendered from its components: the socket goes to the lower-cased host and the explicit port (or 443 for
+   an https proxy, 80 otherwise), TLS to the proxy iff the scheme is https, and credentials are sent iff the URL has a
+   non-empty user name *)
+Theorem C19_proxy_of_url : forall p, wf p ->
+  exists u, parse_url (render p) = Some u /\
+    u_host u = lower_s (p_host p) /\
+    proxy_tls u = bytes_eqb (lower_s (p_scheme p)) (str "https"%string) /\
+    proxy_port u = effective_port (p_port p) (bytes_eqb (lower_s (p_scheme p)) (str "https"%string)) /\
+    proxy_user u = match p_userinfo p with Some (x :: us, pw) => Some (x :: us, pw) | _ => None end.
+Proof. exact proxy_target_of_render. Qed.
+Print Assumptions C19_proxy_of_url.
+
+(* the Basic token decodes to exactly user[:password] of this proxy URL, and is a single header-safe word *)
+Theorem C19_credentials_roundtrip : forall user pw,
+  b64_decode (proxy_credentials user pw) = Some (match pw with Some p => user ++ COLON :: p | None => user end) /\
+  Forall b64_ok (proxy_credentials user pw).
+Proof. intros u pw. unfold proxy_credentials. split; [apply b64_decode_encode|apply b64_encode_alphabet]. Qed.
+Print Assumptions C19_credentials_roundtrip.
+
+(* the CONNECT request names the target and nothing of the WebSocket handshake: its lines are exactly these *)
+Theorem C19_connect_request_lines : forall host port cred,
+  proxy_request host port cred =
+  join CRLF ((str "CONNECT "%string ++ host ++ str ":"%string ++ decimal port ++ str " HTTP/1.1"%string)
+             :: (str "Host: "%string ++ host) :: str "Proxy-Connection: keep-alive"%string :: str "Connection: keep-alive"%string
+             :: match cred with Some c => [str "Proxy-Authorization:: Basic "%string ++ c; CRLF] | None => [CRLF] end).
+Proof. intros host port [c|]; reflexivity. Qed.
